@@ -391,6 +391,37 @@ def serveDNS (L Lu : Msg → Nat) (c : Consts) (cfg : Cfg) (proto : Proto) (q : 
   else
     (next (normalised q s)).map (writeMsg L Lu cfg (writerDecoded c proto q s))
 
+/-- what the rest of the chain did: returned (having written `m`, or nothing), or panicked. -/
+inductive Outcome where
+  | done (m : Option Msg)
+  | panic
+deriving Repr
+
+def rcodeServFail : Nat := 2
+
+/-- `restoreClientView`: when a downstream panic unwinds past edns, the
+request is handed back the way the client sent it as far as a reply built
+from it would show: the appended OPT goes, the forwarded subnet goes. -/
+def restoreClientView (q : Query) (noedns : Bool) : Query :=
+  if noedns then { q with opt := none }
+  else { q with opt := q.opt.map (fun o => { o with options := stripECS o.options }) }
+
+/-- `recovery.ServeDNS` around `EDNS.ServeDNS` (decoded or wire-born request
+alike): a panic of the rest of the chain is answered with
+`CancelWithRcode(SERVFAIL, false)` through the base writer, from the request as
+edns left it. -/
+def serveGuarded (L Lu : Msg → Nat) (c : Consts) (cfg : Cfg) (proto : Proto) (q : Query)
+    (wireBorn : Bool) (next : Query → Outcome) : Option Msg :=
+  if q.opcode > 0 then some (notSupported q) else
+  let s := setEdns0 c cfg.ecs q.opt
+  if s.opt.version ≠ 0 then
+    some (cancelWithRcode (normalised q { s with opt := { s.opt with version := 0, options := stripECS s.opt.options } })
+            rcodeBadVers s.do_)
+  else
+    match next (normalised q s) with
+    | .done m => m.map (writeMsg L Lu cfg (if wireBorn then writerWire c proto q else writerDecoded c proto q s))
+    | .panic => some (cancelWithRcode (restoreClientView (normalised q s) q.opt.isNone) rcodeServFail false)
+
 /-- `EDNS.serveWire`: only entered for opcode 0 and (no OPT or version 0). -/
 def serveWireBorn (L Lu : Msg → Nat) (c : Consts) (cfg : Cfg) (proto : Proto) (q : Query)
     (next : Query → Option Msg) : Option Msg :=
@@ -484,6 +515,18 @@ def listenerHeaderStep (pkt : List Nat) : Option (Option (List Nat)) :=
     | v => some (some (rejectBytes b0 b1 b2 v))
   | _ => some none
 
+/-- the whole decision a datagram / stream listener takes before the pipeline
+runs (`udpEngine.serve`, `tcpEngine.serveFrame`): the header step, then
+`ServeRaw`, whose `false` ("the body does not decode") the engine answers with
+the in-place FORMERR. `decodable` is the DNS library's verdict on the packet.
+`none` = the pipeline answers. -/
+def listenerStep (pkt : List Nat) (decodable : Bool) : Option (Option (List Nat)) :=
+  match listenerHeaderStep pkt with
+  | some out => some out
+  | none =>
+    if decodable then none
+    else some (some (rejectBytes (pkt.getD 0 0) (pkt.getD 1 0) (pkt.getD 2 0) .formerr))
+
 /-! ### a concrete length function for the executable driver
 
 The harness writes each record's measured contribution on the op line, so
@@ -496,5 +539,188 @@ def rrLen (compressed : Bool) : RR → Nat
 def msgLen (compressed : Bool) (m : Msg) : Nat :=
   12 + (match m.question with | some q => q.qlen | none => 0)
     + (m.answer.map (rrLen compressed)).sum + (m.ns.map (rrLen compressed)).sum + (m.extra.map (rrLen compressed)).sum
+
+/-! ### `middleware.Request.ParseWire`: which raw packets may enter the chain undecoded
+
+Bytes are `Nat`s below 256.  `none` = the packet takes the decoded entry. -/
+
+def be16 (raw : List Nat) (off : Nat) : Nat := raw.getD off 0 * 256 + raw.getD (off + 1) 0
+
+/-- the uncompressed question name: offset just past it, or `none`
+(compression pointer, label running past the packet). -/
+def skipPlainName : Nat → List Nat → Nat → Option Nat
+  | 0, _, _ => none
+  | fuel + 1, raw, off =>
+    if off ≥ raw.length then none else
+    let c := raw.getD off 0
+    if c = 0 then some (off + 1)
+    else if c / 64 ≠ 0 then none
+    else if off + 1 + c > raw.length then none
+    else skipPlainName fuel raw (off + 1 + c)
+
+/-- the option list of an OPT RDATA `[off, end_)`: `none` when an option header or payload runs past the end. -/
+def scanOptions : Nat → List Nat → Nat → Nat → Option (List (Nat × List Nat))
+  | 0, _, off, end_ => if off = end_ then some [] else none
+  | fuel + 1, raw, off, end_ =>
+    if off ≥ end_ then (if off = end_ then some [] else none) else
+    if off + 4 > end_ then none else
+    let code := be16 raw off
+    let len := be16 raw (off + 2)
+    if off + 4 + len > end_ then none else
+    match scanOptions fuel raw (off + 4 + len) end_ with
+    | some rest => some ((code, (raw.drop (off + 4)).take len) :: rest)
+    | none => none
+
+/-- the per-option checks of `parseWireOPT` (the library's own checks for the
+options this parser knows; anything else refuses). -/
+def wireOptionOk (code : Nat) (d : List Nat) : Bool :=
+  if code = codeCookie then decide (8 ≤ d.length ∧ d.length ≤ 40)
+  else if code = codeNSID then true
+  else if code = codeECS then
+    decide (d.length ≥ 4) &&
+    (let family := d.getD 0 0 * 256 + d.getD 1 0
+     let netmask := d.getD 2 0
+     let scope := d.getD 3 0
+     if family = 0 then netmask == 0
+     else if family = 1 then decide (netmask ≤ 32 ∧ scope ≤ 32)
+     else if family = 2 then decide (netmask ≤ 128 ∧ scope ≤ 128)
+     else false)
+  else if code = codePadding then true
+  else if code = codeKeepalive then (d.length == 0 || d.length == 2)
+  else false
+
+structure WireFacts where
+  id : Nat
+  flags : Nat
+  qtype : Nat
+  qclass : Nat
+  nameLen : Nat
+  hasOPT : Bool := false
+  udp : Nat := 0
+  doBit : Bool := false
+  version : Nat := 0
+  options : List (Nat × List Nat) := []
+deriving Repr, DecidableEq
+
+/-- `Request.ParseWire` (+ `parseWireOPT`). -/
+def parseWire (raw : List Nat) : Option WireFacts :=
+  if raw.length < 12 then none else
+  let flags := be16 raw 2
+  if flagOpcode flags ≠ 0 ∨ flagQR flags then none else
+  if be16 raw 4 ≠ 1 ∨ be16 raw 6 ≠ 0 ∨ be16 raw 8 ≠ 0 ∨ be16 raw 10 > 1 then none else
+  match skipPlainName raw.length raw 12 with
+  | none => none
+  | some off =>
+    if off - 12 > 255 ∨ off + 4 > raw.length then none else
+    let base : WireFacts := { id := be16 raw 0, flags, qtype := be16 raw off, qclass := be16 raw (off + 2), nameLen := off - 12 }
+    let off := off + 4
+    if be16 raw 10 = 1 then
+      if off + 11 > raw.length ∨ raw.getD off 0 ≠ 0 ∨ be16 raw (off + 1) ≠ 41 then none else
+      let rdlen := be16 raw (off + 9)
+      if off + 11 + rdlen ≠ raw.length ∨ raw.getD (off + 5) 0 ≠ 0 then none else
+      match scanOptions raw.length raw (off + 11) raw.length with
+      | none => none
+      | some opts =>
+        if opts.all (fun o => wireOptionOk o.1 o.2) && decide ((opts.filter (fun o => o.1 == codeCookie)).length ≤ 1) then
+          some { base with hasOPT := true, udp := be16 raw (off + 3), version := raw.getD (off + 6) 0,
+                           doBit := raw.getD (off + 7) 0 / 128 % 2 == 1, options := opts }
+        else none
+    else if off ≠ raw.length then none else some base
+
+/-! ### the byte path: `edns.ResponseWriter.WireReady / WriteWire / appendWireOPT`
+and what the cache hands it (`prepareWireServe`, `wireBodyFor`, `serveWireInto`, `wireInfoFor`) -/
+
+/-- `middleware.WireInfo`. -/
+structure WireInfo where
+  rcode : Nat := 0
+  ad : Bool := false
+  hasDnssec : Bool := false
+  ede : Option EOpt := none
+deriving Repr, DecidableEq
+
+/-- `middleware.WireCapability`. -/
+structure Capability where
+  do_ : Bool
+  reserve : Nat
+  maxSize : Nat
+deriving Repr, DecidableEq
+
+/-- `wireOPTLen`: the exact encoded length of the OPT this layer appends, or
+`none` when it declines (a leftover request option it has no encoder for, a
+cookie of another shape, a secret too long for the preimage buffer). -/
+def wireOPTLen (cfg : Cfg) (secretLen : Nat) (w : Writer) : Option Nat :=
+  if w.noedns then some 0 else
+  if (match w.opt with | some o => o.options.all (fun x => x.code == codeECS) | none => true) = false then none else
+  match (match w.cookie with
+         | some c => if c.length ≠ 8 ∨ 45 + 16 + secretLen > 256 then none else some 44
+         | none => some 0) with
+  | none => none
+  | some ck =>
+    some (11 + ck + (if cfg.nsid ≠ [] ∧ w.nsid then 4 + cfg.nsid.length else 0) + (if w.keepalive then 6 else 0))
+
+/-- `WireReady`; `baseReady` is the transport's own answer (an owned UDP/TCP sink). -/
+def wireReady (cfg : Cfg) (secretLen : Nat) (w : Writer) (baseReady : Bool) : Option Capability :=
+  if !baseReady then none else
+  match wireOPTLen cfg secretLen w with
+  | none => none
+  | some r => some { do_ := w.do_, reserve := r, maxSize := if w.proto == .udp then w.size else 0 }
+
+/-- `appendWireOPT`: the record the byte path appends. -/
+def wireOPT (cfg : Cfg) (w : Writer) (info : WireInfo) : Opt :=
+  { udp := w.respUDP, doBit := w.do_, version := 0,
+    options := cookieOpts w ++ nsidOpts cfg w ++ keepaliveOpts cfg w ++ (match info.ede with | some e => [e] | none => []) }
+
+/-- WriteWire's AD step: `if w.noad && info.AuthenticatedData { wire.ClearAD(body) }`. -/
+def wireBody (w : Writer) (body : Msg) (info : WireInfo) : Msg :=
+  if w.noad && info.ad then { body with fl := { body.fl with ad := false } } else body
+
+/-- the reply with the per-client OPT appended (`appendWireOPT` + `SetARCount`). -/
+def withWireOPT (cfg : Cfg) (w : Writer) (info : WireInfo) (b : Msg) : Msg :=
+  { b with extra := b.extra ++ [.opt (wireOPT cfg w info) true] }
+
+/-- `WriteWire`: `none` = `ErrWireFallback` (nothing was written; the caller
+retakes the message path). `body` is the packed response without OPT. -/
+def writeWire (L : Msg → Nat) (cfg : Cfg) (w : Writer) (body : Msg) (info : WireInfo) : Option Msg :=
+  if !w.do_ && info.hasDnssec then none else
+  let out := if w.noedns then wireBody w body info else withWireOPT cfg w info (wireBody w body info)
+  if w.proto == .udp && decide (L out > w.size) then none else some out
+
+/-- a cache entry as the byte path sees it: the stored message, the
+admission-time "carries DNSSEC records" verdict (`prepareWireServe`, answer and
+authority only), and the stripped body prepared for DO=0 clients. -/
+structure WEntry where
+  stored : Msg
+  hasDnssec : Bool
+  stripped : Option Msg
+  ede : Option EOpt
+deriving Repr
+
+def storedQtype (m : Msg) : Nat := match m.question with | some q => q.qtype | none => 0
+
+/-- `NewCacheEntryWithKey` + `prepareWireServe` + `prepareStripped`. -/
+def newWEntry (m : Msg) : Option WEntry :=
+  match newCacheEntry m with
+  | none => none
+  | some e =>
+    let has := (e.msg.answer ++ e.msg.ns).any RR.isDnssec
+    some { stored := e.msg, hasDnssec := has, ede := e.ede,
+           stripped := if has && storedQtype e.msg != typeRRSIG then some (clearDNSSEC e.msg) else none }
+
+/-- `wireBodyFor(do)`. -/
+def wireBodyFor (e : WEntry) (do_ : Bool) : Option (Msg × Bool) :=
+  if do_ || !e.hasDnssec || storedQtype e.stored == typeRRSIG then some (e.stored, e.hasDnssec)
+  else e.stripped.map (fun b => (b, false))
+
+/-- `serveWireInto` / `serveWireIntoRequest` + `wireInfoFor`: the body with the
+reply header stamped (`wire.ApplyReply`: ID, QR, opcode, RD, CD, AA cleared),
+the client's question spelling, AD cleared for a CD client; and the facts. -/
+def serveWireInto (e : WEntry) (q : Query) (do_ : Bool) : Option (Msg × WireInfo) :=
+  match wireBodyFor e do_ with
+  | none => none
+  | some (b, flag) =>
+    let ad := b.fl.ad && !q.cd
+    some ({ b with id := q.id, opcode := q.opcode, question := some q.question,
+                   fl := { b.fl with qr := true, aa := false, rd := q.rd, cd := q.cd, ad := ad } },
+          { rcode := b.rcode, ad := ad, hasDnssec := flag && storedQtype e.stored != typeRRSIG, ede := e.ede })
 
 end SdnsVerif.Model.Edns
